@@ -62,6 +62,7 @@ MANIFEST = {
             'forked from a zygote that has imported the library but never '
             'compiled or rendered anything), and must leave the caller '
             'data untouched.',
+    'more': 'Also: features for size= over too-long bytes, too-long text and short text in one history; a source with CR LF / CR CR LF line ends in the munge / pickle / copy histories.',
     'note': 'Trusted: dtmc/fingerprint.py as canonical form (deliberately '
             'over-fine: equal fingerprints = equal mutable state reachable '
             'by the renderer, so equal futures); the lazily imported '
